@@ -544,6 +544,71 @@ def fresh_maps_and_second_bindings(rec, rng):
                         return
 
 
+def endpoint_families(rec, rng):
+    """Configurations of one endpoint that the generated maps do not have: the same URL registered for HTTP and for
+    WebSocket (both with defaults), and an endpoint whose rules carry argument sets that contain one another
+    (/archive/ with a default page, /archive/<page>, /archive/all/ without any).  Every request is answered as the
+    rule it names says: a match, or one redirect to a URL that denotes the same endpoint and arguments."""
+    from urllib.parse import unquote, urlsplit
+
+    from werkzeug.exceptions import HTTPException
+    from werkzeug.routing import Map, Rule
+    from werkzeug.routing.exceptions import RequestRedirect
+
+    def follow(m, scheme, path, method="GET"):
+        trail = []
+        cur = path
+        for _ in range(4):
+            try:
+                ep, args = m.bind("example.com", "/", url_scheme=scheme).match(cur, method=method)
+                return ("match", ep, tuple(sorted(args.items()))), trail
+            except RequestRedirect as e:
+                trail.append(e.new_url)
+                cur = unquote(urlsplit(e.new_url).path)
+                if len(trail) > 1 and trail[-1] == trail[-2] or cur == path:
+                    return ("loop",), trail
+            except HTTPException as e:
+                return (type(e).__name__,), trail
+        return ("loop",), trail
+
+    # (a) HTTP / WebSocket twins
+    for order in ("ws-first", "http-first"):
+        for with_slash in (False, True):
+            url = "/feed/" if with_slash else "/feed"
+            twins = [Rule(url, endpoint="feed", defaults={"page": 1}, websocket=True), Rule(url, endpoint="feed", defaults={"page": 1})]
+            if order == "http-first":
+                twins.reverse()
+            m = Map(twins + [Rule("/feed/<int:page>", endpoint="feed"), Rule("/feed/<int:page>", endpoint="feed", websocket=True)])
+            for scheme in ("http", "ws", "https", "wss"):
+                for path, want in ((url, ("match", "feed", (("page", 1),))), ("/feed/3", ("match", "feed", (("page", 3),))), ("/feed/1", ("match", "feed", (("page", 1),)))):
+                    got, trail = follow(m, scheme, path)
+                    rec.case()
+                    rec.nontrivial(("twins", order, with_slash, scheme, path))
+                    rec.observe("http_websocket_twin_requests")
+                    if got != want or len(trail) > 1:
+                        key = "C12/redirect-chain-does-not-terminate" if got == ("loop",) else "C12/redirect-changes-endpoint-or-arguments"
+                        rec.violation(key, f"one URL registered for HTTP and WebSocket ({order}), {scheme} request for {path!r}: {got!r} via {trail!r}, expected {want!r} after at most one redirect",
+                                      {"family": "twins", "order": order, "scheme": scheme, "path": path}, monitor="follow")
+                        return
+    # (b) argument sets that contain one another
+    m = Map([Rule("/archive/", endpoint="archive", defaults={"page": 1}), Rule("/archive/<int:page>", endpoint="archive"), Rule("/archive/all/", endpoint="archive"),
+             Rule("/tag/<name>/", endpoint="tag", defaults={"page": 1}), Rule("/tag/<name>/<int:page>", endpoint="tag"), Rule("/tag/<name>/feed", endpoint="tag"),
+             Rule("/u/<name>/", endpoint="user", defaults={"tab": "home", "page": 1}), Rule("/u/<name>/<tab>/", endpoint="user", defaults={"page": 1}), Rule("/u/<name>/<tab>/<int:page>", endpoint="user")])
+    for path, want in (("/archive/all/", ("archive", ())), ("/archive/all", ("archive", ())), ("/archive//all/", ("archive", ())), ("/archive/", ("archive", (("page", 1),))), ("/archive/1", ("archive", (("page", 1),))),
+                       ("/archive/2", ("archive", (("page", 2),))), ("/tag/python/feed", ("tag", (("name", "python"),))), ("/tag/python/", ("tag", (("name", "python"), ("page", 1)))),
+                       ("/tag/python/1", ("tag", (("name", "python"), ("page", 1)))), ("/u/bob/", ("user", (("name", "bob"), ("page", 1), ("tab", "home")))),
+                       ("/u/bob/home/", ("user", (("name", "bob"), ("page", 1), ("tab", "home")))), ("/u/bob/posts/", ("user", (("name", "bob"), ("page", 1), ("tab", "posts")))),
+                       ("/u/bob/home/1", ("user", (("name", "bob"), ("page", 1), ("tab", "home")))), ("/u/bob/posts/2", ("user", (("name", "bob"), ("page", 2), ("tab", "posts"))))):
+        got, trail = follow(m, "http", path)
+        rec.case()
+        rec.nontrivial(("nested-argument-sets", path))
+        rec.observe("requests_on_endpoints_with_nested_argument_sets")
+        if got != ("match",) + want or len(trail) > 2:
+            key = "C12/redirect-chain-does-not-terminate" if got == ("loop",) else "C12/redirect-changes-endpoint-or-arguments"
+            rec.violation(key, f"{path!r} denotes {want!r}; following the router gives {got!r} via {trail!r}", {"family": "nested-argument-sets", "path": path}, monitor="follow")
+            return
+
+
 def concurrent_first_use(rec, rng, n):
     """Two threads hit a fresh map at once (yields injected inside Map.update): an alias registered before its
     canonical rule must still redirect to the canonical URL, never to itself."""
@@ -804,6 +869,7 @@ def run(shard, rec, rng):
     late_rule_histories(rec, rng, 60 if shard["_tier"] == "quick" else 600)
     aliases_across_hosts(rec, rng)
     fresh_maps_and_second_bindings(rec, rng)
+    endpoint_families(rec, rng)
     for _ in range(cfg["maps"]):
         rules = gen_rules(rng)
         check_map(rec, rng, rules, rng.random() < 0.6, rng.random() < 0.6, rng.random() < 0.8, rng.choice(["/", "/app", "/app/", "/a/b", "/caf\u00e9", "/m n/"]),
